@@ -193,10 +193,24 @@ func orderOracle(prop string, a *arrangement, got []gow.Triple, sel []arrMsg, re
 func c03Body(prop string, gen func(x *explore.Ctx) ([][]arrMsg, string)) explore.Body {
 	return func(x *explore.Ctx) *explore.Verdict {
 		chunks, comp := gen(x)
-		a := buildArrangement(chunks, comp)
 		x.Note = func() any { return map[string]any{"chunks": showChunks(chunks), "compression": comp} }
-		ctxs := " — chunks " + showChunks(chunks)
-		x.State = explore.Hash(a.bytes)
+		if v := c03One(x, prop, buildArrangement(chunks, comp), " — chunks "+showChunks(chunks), true); v != nil {
+			return v
+		}
+		if prop == "C03" {
+			// the same arrangement without message index records (chunk indexes that list no message
+			// index offsets, what the Go writer emits under SkipMessageIndexing)
+			return c03One(x, prop, buildArrangementIdx(chunks, comp, false), " — file without message indexes — chunks "+showChunks(chunks), false)
+		}
+		return nil
+	}
+}
+
+func c03One(x *explore.Ctx, prop string, a *arrangement, ctxs string, setState bool) *explore.Verdict {
+	{
+		if setState {
+			x.State = explore.Hash(a.bytes)
+		}
 		depth := a.overlapDepth(func(int) bool { return true })
 		if depth < 1 {
 			depth = 1
@@ -294,7 +308,7 @@ func tiesGen(lengths []int) func(x *explore.Ctx) ([][]arrMsg, string) {
 
 // C03: time-ordered reads are exact sorts.
 func C03(r *chk.Run) {
-	r.Rule("files built by the reference encoder so that chunk boundaries and time ranges are fully controlled: every arrangement of <=3 chunks x <=3 messages (0 included: empty chunks) with timestamps from {0,1,2,2^64-2} on one channel; two-channel families at smaller scope; a ties family (13..16+ equal-heavy messages in every pattern over 2 timestamps); each file read in file, log-time and reverse order, twice; distinct = distinct files")
+	r.Rule("files built by the reference encoder so that chunk boundaries and time ranges are fully controlled: every arrangement of <=3 chunks x <=3 messages (0 included: empty chunks) with timestamps from {0,1,2,2^64-2} on one channel; two-channel families at smaller scope; a ties family (13..16+ equal-heavy messages in every pattern over 2 timestamps); each file - built with and without message index records - read in file, log-time and reverse order, twice; distinct = distinct files")
 	r.Assume("oracle: exactly-once by sequence tag, monotone times, file order among equal-time messages of one chunk, second read equals first")
 	one := func(maxChunks, maxMsgs int) func(x *explore.Ctx) ([][]arrMsg, string) {
 		return func(x *explore.Ctx) ([][]arrMsg, string) {
